@@ -1,5 +1,5 @@
 SPECIFICATION Spec
-CONSTANT NKeys = 8
+CONSTANT NKeys = 7
 CONSTANT Depth = 4
 CONSTANT MemoLen = 4
 CONSTANT Mutation = "none"
